@@ -102,7 +102,7 @@ func VerifC14Helpers() {
 	node2 := net.Node(env2.IPFS.Peer)
 	o2, err := NewOrbitDB(ctx, env2.IPFS, &NewOrbitDBOptions{
 		Cache: cacheleveldown.New(nil), Directory: &dir, DirectChannelFactory: node2.DirectFactory(),
-		PubSub: node2, EventBus: env2.Bus, PeerID: env2.IPFS.Peer, Identity: env.Identity,
+		PubSub: node2, EventBus: env2.Bus, PeerID: env2.IPFS.Peer,
 	})
 	if err != nil {
 		vstub.Fail("C14 second NewOrbitDB failed")
